@@ -734,6 +734,23 @@ func genC02(ctx *hx.Ctx, emit func(hx.Case)) {
 	for i := 0; i < n; i++ {
 		emit(c02Random(ctx.Rng))
 	}
+	// random histories over a changing store: 2..3 independent random layouts (they share directory and file names and
+	// most reference texts) loaded one after the other on ONE Loader, the store replaced wholesale in between
+	for i := 0; i < n/10; i++ {
+		eps := []any{}
+		for k := 2 + ctx.Rng.Intn(2); k > 0; k-- {
+			eps = append(eps, c02AsEpoch(c02Random(ctx.Rng)))
+		}
+		emit(hx.Case{"epochs": eps})
+	}
+}
+
+// c02AsEpoch: a case (short form or history form, root not given as data) as one epoch of a changing-store history
+func c02AsEpoch(c hx.Case) map[string]any {
+	if ls := jlist(c["loads"]); len(ls) > 0 {
+		return map[string]any{"files": c["files"], "loads": c["loads"]}
+	}
+	return map[string]any{"files": c["files"], "loads": []any{map[string]any{"entry": c["entry"], "root": c["root"]}}}
 }
 
 // where a referring object can be put: at the top level, or in a child slot of a parent at the top level
